@@ -1278,3 +1278,13 @@ Proof.
   split; [exact r751_idx_b|]. split; [vm_compute; discriminate|]. split; [apply stdlib_call_graph_ext|]. split; [exact r751_file_ok|]. split; [exact r751_strict|].
   split; [exact r751_lazy|exact r751_theorem_applies].
 Qed.
+
+(* the purity demands of fragment v2 derived from the checker, on the normalized file: `file_eok` and `pv_file` (Model/Locality.v) do not look at capture
+   indices (Proofs/IdxChecked.v), so for a file the checker accepted the weakened predicate `file_ok2_ns` suffices in the `.._scoped_real_partial` theorems *)
+From TSG Require Import Proofs.IdxChecked.
+Theorem locality_ignores_capture_indices : forall purev fl, file_eok (normalize_file fl) = file_eok fl /\ pv_file purev (normalize_file fl) = pv_file purev fl.
+Proof. intros purev fl. split; [apply file_eok_norm|apply pv_file_norm]. Qed.
+Theorem checked_file_in_fragment2_real : forall q f fl okfn purev ms,
+  check_file q f = CkOk fl -> pv_file purev fl = true ->
+  file_ok2_ns okfn purev (normalize_file fl) (f_stanzas (normalize_file fl)) ms -> file_ok2 okfn purev (normalize_file fl) (f_stanzas (normalize_file fl)) ms.
+Proof. exact checked_file_ok2_real. Qed.
